@@ -11,13 +11,13 @@ RULE = ('Inputs: the suite\'s fixture documents and small generated documents of
         '(delete/duplicate/swap/move/retag, orphan trailers, dropped trailers/headers, non-numeric/empty/missing counts and control numbers, HL/LX renumbering, '
         'element surgery incl. >8 KiB and >16 KiB segments, extra elements/components, acknowledgement delimiters and markup canaries in data, truncation at any '
         'character, empty and blank segments), some re-encoded with other delimiters, plus envelope soups (a well-formed ISA followed by 3-16 header, trailer and body segments in arbitrary order, ids and counts from small pools) and arbitrary strings (empty, short, ISA-only, bad version, printable noise, '
-        'X12-shaped noise). Each input runs through x12n_document under a subset of {997, HTML, XML} sinks x charset {B,E} (all 16 combinations covered), through '
+        'X12-shaped noise). Each input runs through x12n_document under a subset of {997, HTML, XML} sinks x charset {B,E} (all 16 combinations covered), a quarter of the runs with one of the other configuration parameters set (simple_dtd, exclude_external_codes, explicit map_path), through '
         'plain X12Reader iteration + cleanup(), and through X12ContextReader.iter_segments for loop id None and two map loop ids. Allowed outcomes: a bool; X12Error; '
         'EngineError "Map not found". Anything else that escapes, or exceeding the logical step budget, is a violation keyed <Exception>@<innermost pyx12 function>. '
         'non-trivial = distinct mutated inputs that still begin with a well-formed ISA.')
 ASSUMPTIONS = ['path-based sources are not used here (C01/C20 cover them); sinks are StringIO',
                'the step budget is 2e6 + 2000*len(text) Python function entries per run (deterministic); the wall-clock watchdog only yields inconclusive']
-REQUIRED_COUNTERS = ['runs:x12n_document', 'runs:reader', 'runs:context', 'outcome:bool', 'outcome:refused', 'inputs:mutated', 'inputs:fuzz', 'inputs:envelope-soup', 'sinks:ack+html+xml', 'sinks:none']
+REQUIRED_COUNTERS = ['runs:x12n_document', 'runs:reader', 'runs:context', 'outcome:bool', 'outcome:refused', 'inputs:mutated', 'inputs:fuzz', 'inputs:envelope-soup', 'inputs:catalogue-faults', 'inputs:catalogue-faults:qualified-datetime', 'config:simple_dtd', 'config:exclude_external_codes', 'config:map_path', 'sinks:ack+html+xml', 'sinks:none']
 MIN_CASES = {'quick': 1200, 'thorough': 40000}
 WATCHDOG_S = {'quick': 1200, 'thorough': 7200}
 
@@ -39,7 +39,25 @@ def run_doc(ctx, text, sinks, charset, case):
     ctx.count('sinks:' + ('+'.join(n for n, f in zip(('ack', 'html', 'xml'), sinks) if f) or 'none'))
     BUDGET.start(2000000 + 2000 * len(text))
     try:
-        res = pipeline.validate(text, charset=charset, ack=ack, html=html, xml=xml)
+        # the other configuration parameters, by a hash of the input: DTD for the XML form, an excluded external code set, explicit map directory
+        h = zlib.crc32(text[:2000].encode('utf-8', 'replace')) % 7
+        prm = None
+        mp = None
+        if h in (1, 2):
+            import pyx12.params
+            prm = pyx12.params.params()
+            prm.set('charset', charset)
+            if h == 1:
+                prm.set('simple_dtd', 'x12simple.dtd')
+                ctx.count('config:simple_dtd')
+            else:
+                prm.set('exclude_external_codes', 'states,entity_id')
+                ctx.count('config:exclude_external_codes')
+        elif h == 3:
+            from vlib import refmap
+            mp = refmap.MAPDIR
+            ctx.count('config:map_path')
+        res = pipeline.validate(text, charset=charset, ack=ack, html=html, xml=xml, params=prm, map_path=mp)
     except steps.StepBudgetExceeded as ex:
         BUDGET.stop()
         ctx.viol('nonterminating:x12n_document', 'validation exceeded the logical step budget', case, {'budget': str(ex)})
@@ -150,7 +168,23 @@ def run(ctx):
     for k in range(per):
         rng = ctx.sub_rng('c07', ctx.shard, k)
         r = rng.random()
-        if r >= 0.88:
+        if 0.76 <= r < 0.88 and gens:
+            # value-level: 1-5 faults of the single-fault catalogue stacked on a generated document (every typed recogniser, code list, syntax note and
+            # the qualifier-dependent DTP03 formats get wrong values in well-formed surroundings)
+            from vlib import faults
+            doc = gens[rng.randrange(len(gens))]
+            kinds = []
+            for _ in range(rng.randint(1, 5)):
+                f = faults.inject(rng, doc, kind=rng.choice(faults.ELE_KINDS + ['bad_qualified_datetime', 'bad_qualified_datetime', None]), tries=8)
+                if f is not None:
+                    doc = f.doc
+                    kinds.append(f.kind + (':' + str(f.value)[:20] if f.kind == 'bad_qualified_datetime' else ''))
+            text = doc.text()
+            case = {'base': 'gen:%s' % doc.mapfile, 'catalogue_faults': kinds, 'gen': ['c07', ctx.shard, k], 'text': text if len(text) <= 6000 else None, 'text_len': len(text)}
+            ctx.count('inputs:catalogue-faults')
+            if any(x.startswith('bad_qualified_datetime') for x in kinds):
+                ctx.count('inputs:catalogue-faults:qualified-datetime')
+        elif r >= 0.88:
             text = mutate.envelope_soup(rng)
             case = {'envelope_soup': True, 'gen': ['c07', ctx.shard, k], 'text': text}
             ctx.count('inputs:envelope-soup')
